@@ -5,10 +5,14 @@
 // without the private key the client trusts.  Deviations: altered nonce / server nonce at each of
 // the three server messages and inside the encrypted answer, flipped / truncated / re-keyed /
 // empty encrypted answer, substituted dh_prime (composite, not safe, 2047/2049 bits, failing the
-// residue condition), generator outside 2…7, g_a ∈ {0, 1, p−1, p, p+1, 2^1984, p−2^1984, …}, wrong /
+// residue condition), generator outside 2…7, g_a ∈ {0, 1, p−1, p, p+1, 2^1984, p−2^1984, …} and weak g_a = 3^a with a known small a, wrong /
 // altered new_nonce_hash1, dh_gen_retry / dh_gen_fail / server_DH_params_fail, wrong constructors,
 // junk, bad envelopes, replayed messages of an earlier run, own RSA key (other fingerprint, or
-// claiming the trusted one), empty / foreign fingerprint lists, pq above 2^63.
+// claiming the trusted one), empty / foreign fingerprint lists, pq above 2^63; ciphertext surgery a keyless
+// man in the middle can do on the encrypted answer: whole blocks appended (random / duplicated),
+// prepended, inserted, swapped, dropped, single bytes appended or cut; and format variations by the
+// key holder: trailing bytes / a second TL object inside the hashed answer or after each message,
+// non-minimal big-endian numbers, duplicated fingerprints, 16…31 bytes of padding.
 //
 //   - monitor (no model): every run whose deviation is an attack must end in a client error;
 //     no panic;
@@ -87,6 +91,8 @@ func impostor(ctx context.Context, conn transport.Conn, a attack, e *env, r *hc.
 			if len(data) > 8 {
 				data = data[:len(data)-8]
 			}
+		case "trailing": // extra TL-looking words after the object: decoders read a prefix
+			data = append(data, r.Bytes(4*(1+a.arg%8))...)
 		}
 		u := proto.UnencryptedMessage{MessageID: int64(proto.NewMessageID(time.Now(), typ)), MessageData: data}
 		b.Reset()
@@ -156,8 +162,13 @@ func impostor(ctx context.Context, conn transport.Conn, a attack, e *env, r *hc.
 		fps = []int64{int64(r.U64()), int64(r.U64())}
 	case is("fps-foreign-first"):
 		fps = []int64{int64(r.U64()), fps[0], ownFP ^ 1}
+	case is("fps-dup"):
+		fps = []int64{fps[0], fps[0], fps[0]}
 	}
 	res := &mt.ResPQ{Nonce: req.Nonce, ServerNonce: sn, Pq: pq.Bytes(), ServerPublicKeyFingerprints: fps}
+	if is("pq-leading-zeros") { // non-minimal big-endian encoding of the same number
+		res.Pq = append(make([]byte, 1+a.arg%3), res.Pq...)
+	}
 	if is("res-nonce") {
 		flip(res.Nonce[:], a.arg)
 	}
@@ -177,6 +188,8 @@ func impostor(ctx context.Context, conn transport.Conn, a attack, e *env, r *hc.
 		err = send(&mt.DhGenOk{Nonce: req.Nonce, ServerNonce: sn}, resp, "")
 	case is("res-replay"):
 		err = raw(e.replay[0])
+	case is("res-trailing"):
+		err = send(res, resp, "trailing")
 	default:
 		err = send(res, resp, "")
 	}
@@ -226,12 +239,17 @@ func impostor(ctx context.Context, conn transport.Conn, a attack, e *env, r *hc.
 	one := big.NewInt(1)
 	lo := new(big.Int).Lsh(one, crypto.RSAKeyBits-64)
 	aExp := new(big.Int).SetBytes(r.Bytes(256))
+	if is("ga-weak-known") {
+		// a server that knows its exponent but offers a weak g_a = 3^a ≤ 2^1984 (small a): it can
+		// compute the key and the right new_nonce_hash1, so only CheckDHParams stands in the way
+		aExp = big.NewInt(int64([]int{2, 3, 7, 64, 700, 1000, 1200, 1250, 1251}[a.arg%9]))
+	}
 	gBig := big.NewInt(int64(g))
 	ga := new(big.Int).Set(one)
 	if prime.Sign() > 0 && g > 1 {
 		for i := 0; i < 64; i++ { // like TestServerRNG.GA: redraw until g_a is in the safe range
 			ga = new(big.Int).Exp(gBig, aExp, prime)
-			if crypto.InRange(ga, lo, new(big.Int).Sub(prime, lo)) {
+			if crypto.InRange(ga, lo, new(big.Int).Sub(prime, lo)) || is("ga-weak-known") {
 				break
 			}
 			aExp = new(big.Int).SetBytes(r.Bytes(256))
@@ -274,9 +292,21 @@ func impostor(ctx context.Context, conn transport.Conn, a attack, e *env, r *hc.
 	if is("inner-server-nonce") {
 		flip(inner.ServerNonce[:], a.arg)
 	}
+	if is("prime-leading-zeros") {
+		inner.DhPrime = append(make([]byte, 1+a.arg%4), inner.DhPrime...)
+	}
+	if is("ga-leading-zeros") {
+		inner.GA = append(make([]byte, 1+a.arg%4), inner.GA...)
+	}
 	var ib bin.Buffer
 	if inner.Encode(&ib) != nil {
 		return
+	}
+	switch {
+	case is("inner-trailing-bytes"): // hashed together with the object: decodes as the object
+		ib.Put(r.Bytes(4 * (1 + a.arg%16)))
+	case is("inner-trailing-tl"): // a second, valid TL object after the first
+		(&mt.FutureSalt{ValidSince: 1, ValidUntil: 2, Salt: int64(r.U64())}).Encode(&ib)
 	}
 	encNonce := newNonce
 	if is("ans-wrongkey") {
@@ -287,7 +317,42 @@ func impostor(ctx context.Context, conn transport.Conn, a attack, e *env, r *hc.
 	if err != nil {
 		return
 	}
+	blk := func(i int) []byte { i %= len(answer) / 16; return append([]byte(nil), answer[16*i:16*i+16]...) }
+	nblk := len(answer) / 16
 	switch {
+	case is("ans-append-blocks"): // what a keyless man in the middle can always do
+		answer = append(answer, r.Bytes(16*(1+a.arg%4))...)
+	case is("ans-append-dup-last"):
+		for k := 0; k <= a.arg%3; k++ {
+			answer = append(answer, blk(nblk-1)...)
+		}
+	case is("ans-append-dup-first"):
+		answer = append(answer, blk(0)...)
+	case is("ans-append-bytes"):
+		answer = append(answer, r.Bytes(1+a.arg%15)...)
+	case is("ans-prepend-block"):
+		answer = append(r.Bytes(16), answer...)
+	case is("ans-insert-dup"):
+		i := a.arg % nblk
+		answer = append(append(append([]byte{}, answer[:16*i+16]...), blk(i)...), answer[16*i+16:]...)
+	case is("ans-swap-blocks"):
+		i, j := a.arg%nblk, (a.arg/nblk+1+a.arg)%nblk
+		if i == j {
+			j = (i + 1) % nblk
+		}
+		bi, bj := blk(i), blk(j)
+		copy(answer[16*i:], bj)
+		copy(answer[16*j:], bi)
+	case is("ans-drop-first-block"):
+		answer = answer[16:]
+	case is("ans-drop-middle-block"):
+		i := 1 + a.arg%(nblk-2)
+		answer = append(append([]byte{}, answer[:16*i]...), answer[16*i+16:]...)
+	case is("ans-trunc-bytes"):
+		answer = answer[:len(answer)-(1+a.arg%15)]
+	case is("ans-overpad"): // the key holder pads with 16…31 bytes instead of 0…15
+		n := (16-(20+ib.Len())%16)%16 + 16
+		answer = c09x.EncryptAnswerPad(ib.Raw(), key, iv, r.Bytes(n))
 	case is("ans-bitflip"):
 		flip(answer, a.arg)
 	case is("ans-trunc16"):
@@ -326,6 +391,8 @@ func impostor(ctx context.Context, conn transport.Conn, a attack, e *env, r *hc.
 		err = send(ok, proto.MessageFromClient, "")
 	case is("dh-replay"):
 		err = raw(e.replay[1])
+	case is("dh-trailing"):
+		err = send(ok, resp, "trailing")
 	default:
 		err = send(ok, resp, "")
 	}
@@ -378,6 +445,8 @@ func impostor(ctx context.Context, conn transport.Conn, a attack, e *env, r *hc.
 		err = send(gen, resp, "enckey")
 	case is("gen-replay"):
 		err = raw(e.replay[2])
+	case is("gen-trailing"):
+		err = send(gen, resp, "trailing")
 	default:
 		err = send(gen, resp, "")
 	}
@@ -461,23 +530,33 @@ func gen(r *hc.RNG) attack {
 		{"dh-nonce", bit128, 4}, {"dh-server-nonce", bit128, 4}, {"inner-nonce", bit128, 4}, {"inner-server-nonce", bit128, 4},
 		{"ans-bitflip", r.Intn(4096), 6}, {"ans-trunc16", 0, 2}, {"ans-trunc4", 0, 1}, {"ans-empty", 0, 1}, {"ans-random", 0, 2},
 		{"ans-plain", 0, 1}, {"ans-wrongkey", 0, 3},
+		{"ans-append-blocks", r.Intn(64), 6}, {"ans-append-dup-last", r.Intn(64), 3}, {"ans-append-dup-first", 0, 2},
+		{"ans-append-bytes", r.Intn(64), 2}, {"ans-prepend-block", 0, 2}, {"ans-insert-dup", r.Intn(1024), 3},
+		{"ans-swap-blocks", r.Intn(4096), 3}, {"ans-drop-first-block", 0, 1}, {"ans-drop-middle-block", r.Intn(64), 2},
+		{"ans-trunc-bytes", r.Intn(64), 2},
 		{"dh-fail", 0, 2}, {"dh-wrongctor", 0, 1}, {"dh-trunc", 0, 1}, {"dh-enckey", 0, 1}, {"dh-replay", 0, 2},
 		{"prime-semiprime", 0, 2}, {"prime-nonsafe", 0, 2}, {"prime-2047", 0, 2}, {"prime-2049", 0, 2}, {"prime-plus2", 0, 2}, {"prime-half", 0, 1},
-		{"g-bad", r.Intn(8), 5}, {"ga", r.Intn(12), 10},
+		{"g-bad", r.Intn(8), 5}, {"ga", r.Intn(12), 10}, {"ga-weak-known", r.Intn(9), 5},
 		{"gen-nonce", bit128, 4}, {"gen-server-nonce", bit128, 4}, {"gen-hash", bit128, 5}, {"gen-hash-zero", 0, 1}, {"gen-hash2", 0, 2},
 		{"gen-retry", 0, 2}, {"gen-fail", 0, 2}, {"gen-wrongctor", 0, 1}, {"gen-trunc", 0, 1}, {"gen-enckey", 0, 1}, {"gen-replay", 0, 2},
 	}
 	switch x := r.Intn(100); {
-	case x < 8: // controls: an authenticated server with safe parameters must be accepted
+	case x < 12: // controls: an authenticated server with safe parameters must be accepted
 		a.fatal = false
 		a.kind, a.arg = hc.Pick(r, "honest", "honest", "pq-other", "fps-foreign-first", "dh-badtype", "prime-table"), r.Intn(len(c09x.SafePrimes))
+		if r.Chance(50) {
+			// format variations by an authenticated server: the model decides (all are accepted
+			// by the specification-level decoding except over-padding)
+			a.kind, a.arg = hc.Pick(r, "fps-dup", "pq-leading-zeros", "prime-leading-zeros", "ga-leading-zeros", "inner-trailing-bytes",
+				"inner-trailing-tl", "res-trailing", "dh-trailing", "gen-trailing", "ans-overpad"), r.Intn(1024)
+		}
 		if r.Chance(25) {
 			a.key = "second-trusted"
 		}
-	case x < 14: // generators 2…7 against the residue condition: the model decides
+	case x < 17: // generators 2…7 against the residue condition: the model decides
 		a.kind, a.arg = "g-residue", r.Intn(6*len(c09x.SafePrimes))
 		a.fatal = false // set by the caller from crypto.CheckGP
-	case x < 22: // impostors with their own key
+	case x < 24: // impostors with their own key
 		a.key = hc.Pick(r, "own", "claim")
 		a.kind = "honest"
 	default:
@@ -638,7 +717,7 @@ func run(c *hc.Ctx) error {
 			c.Res.TracesValidated++
 		}
 	}
-	c.Res.Rule = "each case = one exchange of the real client against a scripted impostor with one deviation (kinds and their frequencies are in the distribution; bit positions, table indices, seeds from the PRNG); 8% controls (authenticated server, safe parameters: must be accepted), 6% generators 2…7 against the residue condition, 8% impostors with their own RSA key, the rest attacks; non-trivial = the deviation is an attack (client must fail); distinct = distinct case line"
+	c.Res.Rule = "each case = one exchange of the real client against a scripted impostor with one deviation (kinds and their frequencies are in the distribution; bit positions, table indices, seeds from the PRNG); 12% controls and format variations by an authenticated server with safe parameters (accepted or not as the model decides), 5% generators 2…7 against the residue condition, 7% impostors with their own RSA key, the rest attacks (incl. extension, truncation, duplication, swapping of ciphertext blocks); non-trivial = the deviation is an attack (client must fail); distinct = distinct case line"
 	c.PartialNote("the adversary library is finite: deviations are applied one at a time (plus `claim` = no private key combined with any of them); pq = 0, 1 or prime is not offered (crypto.DecomposePQ divides by zero / does not terminate on those — outside this property, reported in notes/C10.md)")
 	c.PartialNote("that a peer without the private key cannot produce an answer decrypting under the temporary key is a cryptographic assumption (RSA_PAD, SHA-1, AES-IGE); the impostors here guess, flip, truncate, replay or re-key")
 	return nil
